@@ -277,10 +277,19 @@ class CallMixin(object):
             self.obligation((r0 >= 0) & (E.const(R) >= 0) & (r0 + R <= m.R), 'block rows in range: %s %s' % (m.name, where(n)), 'bounds')
 
     def is_finite(self, e):
-        """over the reals every value is finite; the F route overrides this"""
+        """over the reals every value is finite.  With option finite_ghosts every stored double x carries a ghost bit
+        x__fin (same index for array cells): isfinite reads it.  Only stored values may be tested."""
         hook = self.opt.get('is_finite')
         if hook:
             return hook(e)
+        if self.opt.get('finite_ghosts'):
+            if e.op == 'var':
+                self.globals_s[e.args[0] + '__fin'] = BOOL
+                return E.var(e.args[0] + '__fin', BOOL)
+            if e.op == 'idx':
+                self.globals_a[e.args[0] + '__fin'] = BOOL
+                return E.idx(e.args[0] + '__fin', e.args[1], BOOL)
+            raise ExtractionError('isfinite of a computed value has no finiteness ghost')
         return E.const(True)
 
     def dyn_norm(self, m, n):
@@ -461,6 +470,13 @@ class CallMixin(object):
             return val
         if td.kind in ('real', 'int', 'bool') and len(arg_nodes) == 1:
             return self.to_type(self.ev(arg_nodes[0]), tstr, n)
+        if td.kind == 'string':
+            if not arg_nodes:
+                return StrTmp(True)
+            v = self.ev(arg_nodes[0])
+            if isinstance(v, StrV):
+                return StrTmp(v.empty())
+            return v if isinstance(v, StrTmp) else StrTmp(False)
         fail(n, 'construction of %s' % tstr)
 
     # ------------------------------------------------------------------------------------------------------ member functions
@@ -514,7 +530,9 @@ class CallMixin(object):
         if t.endswith('*'):
             return 2 if isinstance(v2, (PtrV, PtrSlot, CondPtr)) else -1
         if 'vector<' in t:
-            return 2 if isinstance(v2, (StdVec, StructVec)) else -1
+            if isinstance(v2, InitList):
+                return 1
+            return 2 if isinstance(v2, (StdVec, StructVec, CountVec, MatVec)) else -1
         if isinstance(v2, EnumV):
             return -1
         if vt is not None:
@@ -573,6 +591,16 @@ class CallMixin(object):
         is_ref = tstr.strip().endswith('&')
         if isinstance(v, InitList):
             td = resolve(tstr, tenv)
+            if td.kind == 'countvec':
+                cv = self.make_value(td, self.fresh('arg_' + pname))
+                self.assign(cv.size_lv(), len(v.items))
+                return cv
+            if td.kind == 'stdvec':
+                sv = self.make_value(td, self.fresh('arg_' + pname))
+                self.assign(sv.size_lv(), len(v.items))
+                for j, it in enumerate(v.items):
+                    self.assign(sv.lv(j), self.scalar(it, n))
+                return sv
             if td.kind == 'obj':
                 obj = self.make_obj(td, self.fresh('arg_' + pname) + '__')
                 self.frames_push_ctor(obj, v, n)
